@@ -35,6 +35,8 @@ func main() {
 			usage()
 		}
 		os.Exit(replay(os.Args[2]))
+	case "racebody":
+		os.Exit(runRaceBody(os.Args[2]))
 	case "list":
 		var ks []string
 		for k := range checks {
